@@ -39,7 +39,15 @@ def _singular_diag_inverse(v: dict) -> bool:
     return bool(w.get('singular_inverse_collapse')) and not w.get('other_unsound')
 
 
+def _dense_transpose_wider_params(v: dict) -> bool:
+    """DenseBlockDiagonalOperator whose block values are wider than the data dtype: the hand-written transpose declares
+    (and returns) the promoted dtype instead of the original input dtype.  Only this specimen, only the structure claim."""
+    case = v.get('case') or {}
+    return v.get('kind') == 'transpose-structure' and isinstance(case, dict) and case.get('a') == 'dense_widening' and case.get('form') == 'single'
+
+
 MATCHERS = {
+    'dense_transpose_dtype_wider_params': _dense_transpose_wider_params,
     'singular_diag_inverse_collapse': _singular_diag_inverse,
 }
 
